@@ -265,6 +265,21 @@ export function valueRouteLayouts() {
     "named-reexport": (e) => ({ dep: `${pad}${locals}export const value = ${e};`, barrel: 'export { value } from "./dep";', imp: 'import { value } from "./barrel";', use: "typeof value" }),
     "renamed-reexport": (e) => ({ dep: `${pad}${locals}export const value = ${e};`, barrel: 'export { value as other } from "./dep";', imp: 'import { other } from "./barrel";', use: "typeof other" }),
   };
+  // an enum member used as a type through a qualified name, its initialiser refers to names of the enum's own file
+  {
+    const dep = (body) => `${pad}const PREFIX = "p" as const;\nenum Base { Created = "created", Other = "other" }\n${body}`;
+    const cases = {
+      "other-enum": { body: "export enum Kind { Created = Base.Created, Plain = \"plain\" }", good: '"created"', bad: '"entry"' },
+      template: { body: "export enum Kind { Created = `${PREFIX}_x`, Plain = \"plain\" }", good: '"p_x"', bad: '"entry_x"' },
+    };
+    for (const [cname, c] of Object.entries(cases))
+      for (const shadow of [false, true]) {
+        const entry = `import { Kind } from "./dep";\n${shadow ? 'const PREFIX = "entry" as const;\nenum Base { Created = "entry" }\n' : ""}export const Parsers = parse.buildParsers<{ A: Kind.Created, B: Kind }>();`;
+        out.push({ name: `value-route:enum-member-type:${cname}${shadow ? ":shadowed" : ""}`, files: { "entry.ts": entry, "dep.ts": dep(c.body) }, expect: { A: [[c.good, true], [c.bad, false], ['"plain"', false]], B: [[c.good, true], ['"plain"', true], [c.bad, false]] }, keys: ["A", "B"] });
+      }
+    for (const [bname, b] of Object.entries({ call: "export enum Kind { Created = foo(), Plain = \"plain\" }", unresolved: "export enum Kind { Created = missingName, Plain = \"plain\" }" }))
+      out.push({ name: `value-route:enum-member-type:broken-${bname}`, files: { "entry.ts": 'import { Kind } from "./dep";\nexport const Parsers = parse.buildParsers<{ A: Kind.Created }>();', "dep.ts": dep(b) }, expect: "diagnostic", diagnosticIn: "dep.ts", keys: ["A"] });
+  }
   for (const [rname, mk] of Object.entries(routes)) {
     for (const [ename, e] of Object.entries(exprs))
       for (const shadow of [false, true]) {
